@@ -37,6 +37,12 @@ pub enum Step {
     HoldMs(u64),
     /// record a named time stamp
     Mark(String),
+    /// like `AwaitMessages(n)`, but if the messages have not arrived after `nudge_ms` the peer
+    /// records the mark `nudge-<n>` and sends one harmless further unit (a newline) — "further
+    /// traffic" — and keeps waiting
+    AwaitWithNudge { n: usize, nudge_ms: u64 },
+    /// wait for the client to close; nudge as above (mark `nudge-close`) after `nudge_ms`
+    AwaitCloseWithNudge { nudge_ms: u64, max_ms: u64 },
     /// after the hello exchange: switch to chunked framing iff the client advertised :base:1.1
     /// (a conforming RFC 6242 server); `server_has_11` says whether this server advertised it
     NegotiateFraming { server_has_11: bool },
@@ -99,7 +105,26 @@ pub fn reply_message(id: &str, payload: &str) -> Vec<u8> {
 
 /// Run the script against the channel. Returns the time marks and everything received.
 pub async fn run_script<P: PeerIo>(io: &mut P, script: &Script) -> Marks {
+    run_script_persisting(io, script, None).await
+}
+
+/// as `run_script`; additionally rewrites `persist` after every recorded mark (the child process
+/// that plays the local CLI is killed when the client drops its session)
+pub async fn run_script_persisting<P: PeerIo>(
+    io: &mut P,
+    script: &Script,
+    persist: Option<&std::path::Path>,
+) -> Marks {
     let mut marks = Marks::default();
+    let save = |m: &Marks| {
+        if let Some(p) = persist {
+            let tmp = p.with_extension("tmp");
+            if std::fs::write(&tmp, serde_json::to_vec(m).unwrap_or_default()).is_ok() {
+                let _ = std::fs::rename(&tmp, p);
+            }
+        }
+    };
+    save(&marks);
     let mut inbuf: Vec<u8> = Vec::new();
     let mut received: Vec<Vec<u8>> = Vec::new();
     let mut answered = 0usize; // index into requests (received[1..])
@@ -114,8 +139,43 @@ pub async fn run_script<P: PeerIo>(io: &mut P, script: &Script) -> Marks {
                 }
             }
             Step::PauseMs(ms) => tokio::time::sleep(Duration::from_millis(*ms)).await,
-            Step::Mark(name) => marks.marks.push((name.clone(), mono_ns())),
-            Step::AwaitMessages(n) => {
+            Step::Mark(name) => {
+                marks.marks.push((name.clone(), mono_ns()));
+                save(&marks);
+            }
+            Step::AwaitCloseWithNudge { nudge_ms, max_ms } => {
+                let start = Instant::now();
+                let mut nudged = false;
+                while !eof && start.elapsed() < Duration::from_millis(*max_ms) {
+                    let wait = if nudged {
+                        Duration::from_millis(*max_ms).saturating_sub(start.elapsed())
+                    } else {
+                        Duration::from_millis(*nudge_ms).saturating_sub(start.elapsed())
+                    };
+                    match tokio::time::timeout(wait, io.read_some()).await {
+                        Ok(Ok(b)) if b.is_empty() => eof = true,
+                        Ok(Ok(b)) => inbuf.extend_from_slice(&b),
+                        Ok(Err(_)) => eof = true,
+                        Err(_) if !nudged => {
+                            nudged = true;
+                            marks.marks.push(("nudge-close".into(), mono_ns()));
+                            save(&marks);
+                            if io.write_unit(b"\n").await.is_err() {
+                                eof = true;
+                            }
+                        }
+                        Err(_) => break,
+                    }
+                }
+            }
+            Step::AwaitMessages(_) | Step::AwaitWithNudge { .. } => {
+                let (n, nudge_ms) = match step {
+                    Step::AwaitMessages(n) => (n, None),
+                    Step::AwaitWithNudge { n, nudge_ms } => (n, Some(*nudge_ms)),
+                    _ => unreachable!(),
+                };
+                let started = Instant::now();
+                let mut nudged = false;
                 let deadline = Instant::now() + Duration::from_secs(20);
                 while received.len() < *n && !eof {
                     // extract complete messages
@@ -138,7 +198,7 @@ pub async fn run_script<P: PeerIo>(io: &mut P, script: &Script) -> Marks {
                     if received.len() >= *n {
                         break;
                     }
-                    let rem = deadline.saturating_duration_since(Instant::now());
+                    let mut rem = deadline.saturating_duration_since(Instant::now());
                     if rem.is_zero() {
                         marks.error = Some(format!(
                             "timeout waiting for client message {} (have {})",
@@ -147,6 +207,9 @@ pub async fn run_script<P: PeerIo>(io: &mut P, script: &Script) -> Marks {
                         ));
                         break;
                     }
+                    if let (Some(ms), false) = (nudge_ms, nudged) {
+                        rem = rem.min(Duration::from_millis(ms).saturating_sub(started.elapsed()));
+                    }
                     match tokio::time::timeout(rem, io.read_some()).await {
                         Ok(Ok(b)) if b.is_empty() => eof = true,
                         Ok(Ok(b)) => inbuf.extend_from_slice(&b),
@@ -154,7 +217,18 @@ pub async fn run_script<P: PeerIo>(io: &mut P, script: &Script) -> Marks {
                             marks.error = Some(format!("read: {e}"));
                             eof = true;
                         }
-                        Err(_) => {}
+                        Err(_) => {
+                            if let (Some(ms), false) = (nudge_ms, nudged) {
+                                if started.elapsed() >= Duration::from_millis(ms) {
+                                    nudged = true;
+                                    marks.marks.push((format!("nudge-{n}"), mono_ns()));
+                                    save(&marks);
+                                    if io.write_unit(b"\n").await.is_err() {
+                                        eof = true;
+                                    }
+                                }
+                            }
+                        }
                     }
                 }
                 if received.len() < *n {
@@ -259,6 +333,7 @@ pub async fn run_script<P: PeerIo>(io: &mut P, script: &Script) -> Marks {
         .iter()
         .map(|m| String::from_utf8_lossy(m).to_string())
         .collect();
+    save(&marks);
     marks
 }
 
